@@ -30,11 +30,20 @@ ASSUMPTIONS = ["Python integers / model.tower.Ext arithmetic is the reference fo
                "the predicates are given normalised (affine) points, as produced by the decoders"]
 
 
+# the pairing layer (g1_/g2_/gt_ macros) of the 638-bit build is compiled for the k = 18 default curve of that size, so the
+# k = 12 curves BN_P638/B12_P638 cannot be driven through it (C11 covers their ep2 arithmetic)
+SWEEP = [("BN_P382", "asan382"), ("BN_P446", "asan446"), ("B12_P377", "asan377")]
+
+
 def parts(tier):
     q = tier == "quick"
-    return [dict(part="BN_P256", cfg="asan256", shards=6 if q else 8),
-            dict(part="SM9_P256", cfg="asan256", shards=5 if q else 8),
-            dict(part="B12_P381", cfg="asan381", shards=5 if q else 8)]
+    ps = [dict(part="BN_P256", cfg="asan256", shards=6 if q else 8),
+          dict(part="SM9_P256", cfg="asan256", shards=5 if q else 8),
+          dict(part="B12_P381", cfg="asan381", shards=5 if q else 8)]
+    if not q:
+        # sweep over the other field sizes that carry a quadratic twist (thorough tier only)
+        ps += [dict(part=nm, cfg=cfg, shards=4) for nm, cfg in SWEEP]
+    return ps
 
 
 def p1d(pt):
@@ -76,6 +85,12 @@ def run(ctx, part):
     A2, B2, C2 = env.A, env.B, env.C
     ctx.note("parameter_sets", [part])
     notbuilt = set()
+    sweep = part in [nm for nm, _ in SWEEP]
+
+    def N(q, t):
+        """case count; the sweep curves (thorough tier, larger fields, slower model) get a reduced random workload"""
+        v = ctx.n(q, t)
+        return max(1, v // 8) if sweep else v
 
     def has(fn):
         if R.has(fn):
@@ -98,6 +113,7 @@ def run(ctx, part):
             ctx.end()
 
     # ------------------------------------------------------------------ the target field, measured
+    assert K["sizeof_gt_t"] == 12 * R.fp_sz and K["sizeof_g2_t"] == e.sz, "the pairing layer of this build is not k = 12"
     F6 = Ext(F2, 3, tuple(M.xi))
     F12 = Ext(F6, 2, F6.gen())
     w = R.fpx_new(12, [0] * 6 + [1] + [0] * 5)
@@ -132,7 +148,10 @@ def run(ctx, part):
     ga, gb, gc, gd = R.fpx_new(12), R.fpx_new(12), R.fpx_new(12), R.fpx_new(12)
     R.call("gt_get_gen", ga)
     gT, canon = gt_read(ga)
-    assert canon and gt_member(gT), "gt_get_gen() is not an element of order r (model)"
+    if ctx.begin("gt_get_gen|", {}, nontrivial=True):
+        ctx.check(canon and gt_member(gT), "gt_get_gen||not-a-member")
+        ctx.end()
+    assert gt_member(gT), "gt_get_gen() is not an element of order r (model)"
     GT = GtBase(F12, gT, n)
     if ctx.shard == 0:
         # model self-tests (once per part): conjugation is the p^6-power map; easy() lands in the cyclotomic subgroup
@@ -228,7 +247,7 @@ def run(ctx, part):
         yield "member|small-multiple", G1.mul(rng.randrange(2, 20)), True
         yield "member|neg", E1.neg(rng.choice(S1).P), True
         yield "identity", None, False
-        for _ in range(ctx.n(6, 60)):
+        for _ in range(N(6, 60)):
             pt = M.rand_point1(rng)
             mem = M.in_g1(pt)
             if M.h1 == 1:
@@ -242,7 +261,7 @@ def run(ctx, part):
                 continue
             yield "small-order|%d" % q, pt, False
             yield "member+small-order|%d" % q, E1.add(pt, rng.choice(S1).P), False
-        for _ in range(ctx.n(6, 60)):
+        for _ in range(N(6, 60)):
             x, y = rng.choice(S1 + [G1]).P
             c = rng.randrange(3)
             bad = (x, (y + rng.randrange(1, p)) % p) if c == 0 else (((x + rng.randrange(1, p)) % p, y) if c == 1 else
@@ -274,7 +293,7 @@ def run(ctx, part):
         yield "member|small-multiple", env.G.mul(rng.randrange(2, 20)), True
         yield "member|neg", E2.neg(rng.choice(S2).P), True
         yield "identity", None, False
-        for _ in range(ctx.n(10, 100)):
+        for _ in range(N(10, 100)):
             pt = M.rand_point2(rng)
             mem = E2.mul(n, pt) is None
             yield ("member|random-twist-point" if mem else "twist-point-outside"), pt, mem
@@ -283,7 +302,7 @@ def run(ctx, part):
             yield "member+small-order|%d" % q, E2.add(pt, rng.choice(S2).P), False
         if len(small2) > 1:
             yield "small-order|sum", E2.add(small2[0][1], small2[1][1]), False
-        for _ in range(ctx.n(6, 60)):
+        for _ in range(N(6, 60)):
             x, y = rng.choice(S2 + [env.G]).P
             c = rng.randrange(3)
             bad = (x, F2.add(y, (rng.randrange(1, p), 0))) if c == 0 else ((F2.add(x, (0, rng.randrange(1, p))), y) if c == 1
@@ -312,14 +331,14 @@ def run(ctx, part):
 
     def gt_candidates():
         yield "member|gen", gT, True
-        for _ in range(ctx.n(3, 30)):
+        for _ in range(N(3, 30)):
             yield "member|power", GT.pow(rng.randrange(2, n)), True
         yield "member|inverse", conj(gT), True
         yield "identity", ONE, False
         yield "zero", ZERO, False
         yield "minus-one", MINUS1, False
         yield "member*minus-one", F12.mul(MINUS1, GT.pow(rng.randrange(2, n))), False
-        for _ in range(ctx.n(4, 40)):
+        for _ in range(N(4, 40)):
             x = F12.rand(rng)
             yield "random", x, None
         x = F12.rand(rng)
@@ -387,7 +406,7 @@ def run(ctx, part):
             for scls, k in (("zero", 0), ("one", 1), ("rand", rng.randrange(n)), ("neg-small", -3)):
                 if mine():
                     g1_mul_case(fn, scls, k, epx.Base(E1, None), "identity")
-    for _ in range(ctx.n(240, 3000)):
+    for _ in range(N(240, 3000)):
         fn = rng.choice(g1fns)
         scls, k = rand_scalar(env)
         b = G1 if fn == "g1_mul_gen" else rng.choice(S1 + [G1])
@@ -410,7 +429,7 @@ def run(ctx, part):
             for b, bc in ((G1, "gen"), (S1[0], "member"), (epx.Base(E1, None), "identity")):
                 if mine():
                     g1_dig_case(d, b, bc)
-        for _ in range(ctx.n(40, 500)):
+        for _ in range(N(40, 500)):
             g1_dig_case(rng.getrandbits(rng.choice([5, 33, 64, 64])), rng.choice(S1), "member")
 
     hostile = [("zero", 0), ("one", 1), ("small", 2), ("n-1", n - 1), ("n", n), ("n+1", n + 1), ("near-mult-n", 2 * n + 3),
@@ -457,7 +476,7 @@ def run(ctx, part):
                                  ("rand", 987654321987654321987, "neg", -987654321987654321987)):
                 if mine():
                     g1_sim_case(kc, k, mc, m, rel)
-        for _ in range(ctx.n(90, 1500)):
+        for _ in range(N(90, 1500)):
             kc, k = rand_scalar(env)
             mc, m = rand_scalar(env)
             g1_sim_case(kc, k, mc, m, rng.choice(["gen"] * 6 + ["P=Q", "P=-Q", "infP", "infQ"]))
@@ -523,7 +542,7 @@ def run(ctx, part):
             for sp in ("hostile", "cancel", "with-identity"):
                 if mine():
                     lot_case(which, cnt, sp)
-        for _ in range(ctx.n(6, 150)):
+        for _ in range(N(6, 150)):
             lot_case(which, rng.choice([1, 2, 3, 4, 9, 10, 11, 12]), rng.choice([None, None, "hostile"]))
 
     # =========================================================================== multiplication in G2
@@ -553,7 +572,7 @@ def run(ctx, part):
             for scls, k in (("zero", 0), ("one", 1), ("rand", rng.randrange(n)), ("neg-small", -3)):
                 if mine():
                     g2_mul_case(fn, scls, k, epx.Base(E2, None), "identity")
-    for _ in range(ctx.n(180, 3000)):
+    for _ in range(N(180, 3000)):
         fn = rng.choice(g2fns)
         scls, k = rand_scalar(env)
         b = env.G if fn == "g2_mul_gen" else rng.choice(S2 + [env.G])
@@ -576,7 +595,7 @@ def run(ctx, part):
             for b, bc in ((env.G, "gen"), (S2[0], "member"), (epx.Base(E2, None), "identity")):
                 if mine():
                     g2_dig_case(d, b, bc)
-        for _ in range(ctx.n(30, 500)):
+        for _ in range(N(30, 500)):
             g2_dig_case(rng.getrandbits(rng.choice([5, 33, 64, 64])), rng.choice(S2), "member")
 
     def g2_sim_case(kc, k, mc, m, rel="gen"):
@@ -618,7 +637,7 @@ def run(ctx, part):
                                  ("rand", 987654321987654321987, "neg", -987654321987654321987)):
                 if mine():
                     g2_sim_case(kc, k, mc, m, rel)
-        for _ in range(ctx.n(60, 1500)):
+        for _ in range(N(60, 1500)):
             kc, k = rand_scalar(env)
             mc, m = rand_scalar(env)
             g2_sim_case(kc, k, mc, m, rng.choice(["gen"] * 6 + ["P=Q", "P=-Q", "infP", "infQ"]))
@@ -660,7 +679,7 @@ def run(ctx, part):
         for i, (scls, k) in enumerate(SC):
             if mine():
                 gt_exp_case(fn, scls, k, 0 if fn == "gt_exp_gen" else i % len(memT))
-    for _ in range(ctx.n(60, 1500)):
+    for _ in range(N(60, 1500)):
         fn = rng.choice(gtfns)
         scls, k = rand_scalar(env)
         gt_exp_case(fn, scls, k, 0 if fn == "gt_exp_gen" else rng.randrange(len(memT)))
@@ -685,7 +704,7 @@ def run(ctx, part):
                 gt_dig_case(d, case[0] % len(memT))
         if mine():
             gt_dig_case(rng.getrandbits(64), 0, alias=1)
-        for _ in range(ctx.n(15, 300)):
+        for _ in range(N(15, 300)):
             gt_dig_case(rng.getrandbits(rng.choice([5, 33, 64, 64])), rng.randrange(len(memT)))
 
     def gt_sim_case(kc, k, mc, m, rel="gen"):
@@ -718,11 +737,49 @@ def run(ctx, part):
             for kc, k, mc, m in (("rand", rng.randrange(n), "rand", rng.randrange(n)), ("small", 5, "small", 5)):
                 if mine():
                     gt_sim_case(kc, k, mc, m, rel)
-        for _ in range(ctx.n(20, 600)):
+        for _ in range(N(20, 600)):
             kc, k = rand_scalar(env)
             mc, m = rand_scalar(env)
             gt_sim_case(kc, k, mc, m, rng.choice(["gen"] * 5 + ["a=c", "a=1/c"]))
 
+    def gt_rand_case():
+        def body():
+            key = "gt_rand|"
+            if not ctx.begin(key, {}, nontrivial=True):
+                return
+            ctypes.memset(gc, R.poison, 12 * R.fp_sz)
+            res = R.call("gt_rand", gc)
+            if res.caught:
+                ctx.check(False, key + "|unexpected-error", {"err": res.err})
+                return
+            x, canon = gt_read(gc)
+            ctx.check(gt_member(x) or F12.eq(x, ONE), key + "|not-a-member", {"x": fd(x)[:4]})
+            ctx.check(canon, key + "|non-canonical")
+            # and the predicate agrees
+            res = R.call("gt_is_valid", gc)
+            ctx.check(bool(res.i) == gt_member(x), key + "|is_valid-disagrees")
+        guard(body)
+
+    if has("gt_rand"):
+        for _ in range(N(3, 40)):
+            gt_rand_case()
+
     ctx.note("functions_exercised", sorted(R.fn_seen))
     ctx.note("functions_not_built", sorted(notbuilt))
     ctx.note("error_codes_seen", {str(k): v for k, v in R.err_codes.items()})
+
+
+def finish(cov):
+    import json
+    import os
+    inv = os.path.join(os.path.dirname(os.path.dirname(os.path.dirname(os.path.abspath(__file__)))), "design",
+                       "api_inventory.json")
+    try:
+        F = json.load(open(inv))["functions"]
+    except (OSError, ValueError, KeyError):
+        return
+    scope = sorted(k for k, v in F.items() if v.get("property") == "C12")
+    seen = set(cov.get("functions_exercised", []))
+    cov["functions_in_scope"] = len(scope)
+    cov["functions_in_scope_exercised"] = len([f for f in scope if f in seen])
+    cov["functions_uncovered"] = [f for f in scope if f not in seen and f not in set(cov.get("functions_not_built", []))]
